@@ -342,8 +342,13 @@ func runC05(w *W) {
 			braw := encodeThrift(nil, bv)
 			if len(braw) > 2 {
 				cut := 1 + t.Intn(len(braw)-1, "tree.failedload.cut")
-				bin := w.AllocData(braw[:cut], simrt.PlaceHeap)
-				tree.Node = generic.NewNode(thrift.Type(rootT.Kind), bin.B)
+				// the input has one spare byte behind it inside its own allocation: the address "one past the input"
+				// then belongs to this buffer alone, so a stale slot that points at the start of some other heap
+				// object (e.g. the 8-byte value of an earlier SetField) cannot be taken for a dangling one
+				hb := make([]byte, cut+1)
+				copy(hb, braw[:cut])
+				binB := hb[:cut:cut]
+				tree.Node = generic.NewNode(thrift.Type(rootT.Kind), binB)
 				w.NextOp(fmt.Sprintf("Load of a truncated value (%d of %d bytes) into the tree that is reused next", cut, len(braw)))
 				w.opFacts = c.facts
 				err := tree.Load(rec, opts)
@@ -352,7 +357,7 @@ func runC05(w *W) {
 					w.Count("failed_load_before_reuse")
 					// the tree the caller keeps must not hold a pointer to the byte behind the input: the garbage
 					// collector takes it for a pointer into the neighbouring object ("found pointer to free object")
-					if where := danglingChild(tree, bin.B, "$", 0); where != "" {
+					if where := danglingChild(tree, binB, "$", 0); where != "" {
 						w.Failf("dangling-pointer", c.facts, "after the failed Load the child slot %s points one past the end of the %d-byte input", where, cut)
 					}
 				}
@@ -453,6 +458,11 @@ func runC05(w *W) {
 		if nedit > 0 {
 			c.marshalAndCheck(tree, model, nil, false, "edited")
 		}
+		// a fork taken after the edits (children that were replaced or reloaded keep spare capacity), then the same
+		// container child is loaded in both trees and edited in the fork only: the original must not see it
+		if model.T.Kind == tSTRUCT && !c.opts.NotScanParentNode && t.Chance(1, 3, "nested.use") {
+			c.nestedForkEdit(tree, model, vg)
+		}
 		if fork != nil {
 			c.marshalAndCheck(fork, forkModel, nil, false, "fork")
 		}
@@ -464,6 +474,52 @@ func runC05(w *W) {
 		}
 	}
 	w.sample = map[string]interface{}{"root": typeName(rootT), "loads": nloads, "options": fmt.Sprintf("%+v", *opts), "recurse": rec}
+}
+
+func (c *c05) nestedForkEdit(tree *generic.PathNode, model *TVal, vg *vgen) {
+	w, t := c.w, c.w.T
+	var cands []*TField
+	for _, fv := range model.Fields {
+		if fv.F != nil && fv.V != nil {
+			switch fv.F.T.Kind {
+			case tSTRUCT, tLIST, tSET, tMAP:
+				cands = append(cands, fv.F)
+			}
+		}
+	}
+	if len(cands) == 0 {
+		return
+	}
+	f := cands[t.Intn(len(cands), "nested.field")]
+	w.NextOp(fmt.Sprintf("PathNode.Fork after the edits, Field(%d) loaded in both trees, edits below it in the fork", f.ID))
+	fk := tree.Fork()
+	fkModel := cloneVal(model)
+	w.opFacts = c.facts
+	tn, fn := tree.Field(thrift.FieldID(f.ID), c.opts), fk.Field(thrift.FieldID(f.ID), c.opts)
+	w.opFacts = nil
+	if tn == nil || fn == nil || tn.IsError() || fn.IsError() || len(tn.Node.Raw()) == 0 || len(fn.Node.Raw()) == 0 {
+		return
+	}
+	for _, n := range []*generic.PathNode{tn, fn} {
+		if len(n.Next) == 0 {
+			w.opFacts = c.facts
+			err := n.Load(false, c.opts)
+			w.opFacts = nil
+			if err != nil {
+				w.Failf("load-failed", c.facts, "Load(false) of the well-formed child Field(%d) failed: %v", f.ID, err)
+			}
+		}
+	}
+	sub, _, _ := childAt(fkModel, pstep{Kind: 0, ID: f.ID})
+	if sub == nil {
+		return
+	}
+	for e, n := 0, 1+t.Intn(3, "nested.nedits"); e < n; e++ {
+		c.editRoot(fn, sub, vg)
+	}
+	w.Count("nested_fork_edits")
+	c.marshalAndCheck(&fk, fkModel, nil, false, "fork edited below a child")
+	c.marshalAndCheck(tree, model, nil, false, "original after its fork was edited below a child")
 }
 
 func (c *c05) marshalAndCheck(tree *generic.PathNode, model *TVal, raw []byte, wantIdentical bool, what string) {
